@@ -1,7 +1,7 @@
 (* C02 -- KNN (K>1) and join-provenance neighbor scores are exact Shapley values.  Statements only. *)
 From Coq Require Import List Arith ZArith QArith Bool.
 From DS Require Import Util.SumQ Spec.Shapley Model.ADD Spec.Count Spec.Knn Model.Bruteforce Model.ShapleyAdd
-     Proofs.BruteforceShapley Proofs.OracleProofs Proofs.KnnShapley.
+     Proofs.BruteforceShapley Proofs.OracleProofs Proofs.KnnShapley Model.Oracle Proofs.NeighborAdd.
 Import ListNotations.
 Local Open Scope Q_scope.
 
@@ -33,6 +33,19 @@ Theorem C02_add_is_shapley : forall n K C rows labels dists ucols nulls i,
   == shapley n (v_knn K C rows labels dists ucols nulls) i.
 Proof. exact add_is_shapley. Qed.
 
+(* end to end for chain-compiled provenance (every row needs exactly one unit: one-unit-per-row and map/fork
+   pipelines, at least two units): the loop over the MODEL of the ADD-based oracle (compile, boundary diagrams,
+   restrict, sum, +1 per present unit, modelcount) is the Shapley value of the KNN game *)
+Theorem C02_add_chain_is_shapley : forall n K C rows labels dists ucols nulls i,
+  (2 <= n)%nat -> (i < n)%nat -> (1 <= K)%nat ->
+  (forall r, (r < length rows)%nat -> exists u, nth r rows [] = [u] /\ (u < n)%nat) ->
+  (forall r, (r < length rows)%nat -> (nth r labels 0 < C)%nat) ->
+  (forall d, In d dists -> length d = length rows /\ NoDup (map Qred d)) ->
+  nth i (shapley_add (map (fun d => mkProb n rows labels d (n - 1) K C) dists)
+                     (map chain_oracle (map (fun d => mkProb n rows labels d (n - 1) K C) dists)) ucols nulls n) 0
+  == shapley n (v_knn K C rows labels dists ucols nulls) i.
+Proof. exact add_chain_is_shapley. Qed.
+
 (* with pairwise distinct distances exactly one row of a K-or-more-element row set has rank K: the rank-based
    definition `nearest` selects exactly the K nearest rows *)
 Theorem C02_rank_count : forall (d : nat -> Q) (P : list nat), NoDup P ->
@@ -49,3 +62,4 @@ Print Assumptions C02_max_cardinality.
 Print Assumptions C02_add_point_is_shapley.
 Print Assumptions C02_add_is_shapley.
 Print Assumptions C02_rank_count.
+Print Assumptions C02_add_chain_is_shapley.
